@@ -122,7 +122,8 @@ R, C = 0, 1  # operand tags
 
 class Engine:
     def __init__(s, ll_text, max_steps=2000000, max_paths=200000, query_timeout_ms=120000, check_undef=True,
-                 params=None, page_end=None):
+                 params=None, page_end=None, cpu='haswell'):
+        s.cpu = cpu; s.ifunc_cache = {}
         ll2c.M = ll2c.Module()
         # ll2c functions reference the module-level M; rebind in that module
         ll2c.parse_module(ll_text)
@@ -186,6 +187,10 @@ class Engine:
         for g, a, sz in s.ginit:
             if g['init'] is None:
                 b = [0] * sz; relocs = []
+                if g['name'] == '@__cpu_model':
+                    # libgcc's CPU feature word consulted by ifunc resolvers: bit 10 = avx2, bit 8 = sse4.2, bit 19 = pclmul (+ the older SSE levels)
+                    feat = {'haswell': 0x400 | 0x80000 | 0x1ff, 'westmere': 0x80000 | 0x1ff, 'none': 0}[s.cpu]
+                    b[12:16] = list(feat.to_bytes(4, 'little'))
             else:
                 relocs = []
                 b = list(const_bytes(g['ty'], g['init'], relocs, 0))
@@ -194,7 +199,7 @@ class Engine:
             s.gobjs.append(o)
             for off, v, ty in relocs:
                 val = s.constval(ty, v)
-                for i in range(8): o.b[off + i] = (val >> (8 * i)) & 255
+                for i in range(sizeof(ty)): o.b[off + i] = (val >> (8 * i)) & 255
 
     def constval(s, ty, v):
         """Evaluate a constant operand to a python value."""
@@ -260,6 +265,8 @@ class Engine:
             L = []
             for ln in lines:
                 ln = re.sub(r'(, ![a-zA-Z_.0-9]+ ![0-9]+)+$', '', ln)
+                if 'metadata' in ln and ('@llvm.experimental.noalias.scope.decl' in ln or '@llvm.dbg.' in ln):
+                    L.append((op_nop, None)); continue
                 try:
                     L.append(s.decode_ins(P(tokenize(ln)), bindex))
                 except Exception as e:
@@ -824,6 +831,22 @@ class Engine:
                 if re.search(pat, name): h = fn; break
             s._stubcache[name] = h
         return s._stubcache[name]
+
+    def resolve_ifunc(s, st, name):
+        """Run the real ifunc resolver (concretely, on a scratch copy of the state) and return the chosen implementation."""
+        if name not in s.ifunc_cache:
+            g = s.M.globals[name]
+            res = g['target'][1]
+            t = st.fork(); t.frames = []; t.seq = []
+            s.push_call(t, res, [], None)
+            sub = []
+            s.exec_path(t, sub)
+            if sub: raise Inconclusive('ifunc resolver forked')
+            impl = s.addr2fn.get(t.retval)
+            if impl is None: raise Inconclusive('ifunc resolver returned a non-function')
+            s.ifunc_cache[name] = impl
+            s.funcs_seen.add(res)
+        return s.ifunc_cache[name]
 
     def fresh(s, st, tag, bits):
         st.nundef += 1
@@ -1581,6 +1604,13 @@ def op_call(E, st, fr, ins):
         a = need_int(st, a)
         name = E.addr2fn.get(a)
         if name is None: raise Violation('badcall', 'indirect call to non-function address %#x' % a)
+    g_ = E.M.globals.get(name)
+    if g_ is not None and g_.get('kind') == 'ifunc':
+        name = E.resolve_ifunc(st, name)
+    elif g_ is not None and g_.get('kind') == 'alias':
+        tg = g_['target']
+        while tg[0] == 'ccast': tg = tg[3]
+        if tg[0] == 'ref': name = tg[1]
     if name in E.M.funcs:
         h = E.stub_for(name)
         if h is not None:
